@@ -59,6 +59,8 @@ pub struct Case {
     pub color: ColorFormat,
     pub opts: EncodeOptions,
     pub mips: bool,
+    /// declared number of levels when the chain is partial (token `m<N>`, N >= 2); None = full chain
+    pub mipn: Option<u32>,
     pub threads: usize,
     pub order: Order,
     pub mt: bool,
@@ -88,9 +90,16 @@ pub fn parse(line: &str) -> Option<Option<Case>> {
     let color = parse_color(t[5])?;
     let d = parse_dith(t[6])?;
     let q = parse_quality(t[7])?;
-    let mips = match t[8] {
-        "0" => false,
-        "1" => true,
+    let (mips, mipn) = match t[8] {
+        "0" => (false, None),
+        "1" => (true, None),
+        s if s.starts_with('m') => {
+            let n = p_u32(&s[1..])?;
+            if n < 2 || n > 32 {
+                return None;
+            }
+            (true, Some(n))
+        }
         _ => return None,
     };
     let par = match t[9] {
@@ -125,6 +134,7 @@ pub fn parse(line: &str) -> Option<Option<Case>> {
         color,
         opts: options(d, q, ErrorMetric::Uniform, par),
         mips,
+        mipn,
         threads,
         order,
         mt,
@@ -158,7 +168,7 @@ pub fn level_sizes(c: &Case) -> Vec<Size> {
         let mut l = 1u8;
         loop {
             let prev = *v.last().unwrap();
-            if prev.width <= 1 && prev.height <= 1 {
+            if (prev.width <= 1 && prev.height <= 1) || c.mipn.is_some_and(|n| v.len() as u32 >= n) {
                 break;
             }
             v.push(Size::new(c.w, c.h).get_mipmap(l));
@@ -247,7 +257,11 @@ pub fn execute(c: &Case, data: &[u8], pre_cancel: bool, cancel_at: Option<usize>
     }
     let mut out = vec![];
     if c.api_encoder {
-        let mut encoder = match Encoder::new_image(&mut writer, Size::new(c.w, c.h), c.format, c.mips) {
+        let made = match c.mipn {
+            None => Encoder::new_image(&mut writer, Size::new(c.w, c.h), c.format, c.mips),
+            Some(n) => Encoder::new(&mut writer, c.format, &dds::header::Header::new_image(c.w, c.h, c.format).with_mipmap_count(n)),
+        };
+        let mut encoder = match made {
             Ok(e) => e,
             Err(e) => return vec![Outcome { result: Err(e), reports: vec![], written: 0, forced: 0, timeouts: 0, late: 0 }],
         };
@@ -464,7 +478,7 @@ pub fn gen(seed: u64, thorough: bool) -> Vec<String> {
                     sh: &(&str, &str, &str, &str),
                     w: u32,
                     h: u32,
-                    mips: bool,
+                    mips: u32,
                     par: bool,
                     rep: &str,
                     cancel: String,
@@ -480,7 +494,7 @@ pub fn gen(seed: u64, thorough: bool) -> Vec<String> {
             sh.1,
             sh.2,
             sh.3,
-            mips as u8,
+            if mips >= 2 { format!("m{mips}") } else { mips.to_string() },
             par as u8,
             rng.below(1 << 30)
         ));
@@ -495,8 +509,13 @@ pub fn gen(seed: u64, thorough: bool) -> Vec<String> {
                 if api == "E" && (w == 0 || h == 0) {
                     continue; // a DDS header cannot declare an empty surface
                 }
-                for mips in [false, true] {
-                    if mips && (api == "F" || !can_mip || w == 0) {
+                // 0 = no mipmaps, 1 = full chain, n >= 2 = a partial chain of n declared levels (the last generated
+                // level may then still be split into fragments)
+                for mips in [0u32, 1, 2, 3] {
+                    if mips > 0 && (api == "F" || !can_mip || w == 0) {
+                        continue;
+                    }
+                    if mips >= 2 && (w.max(h) < (1 << mips) || (si + mips as usize) % 2 == 0) {
                         continue;
                     }
                     for par in [false, true] {
@@ -530,7 +549,14 @@ pub fn gen(seed: u64, thorough: bool) -> Vec<String> {
     for l in large {
         let sh = (l.0, l.1, l.2, l.3);
         for (api, par, cancel) in [("E", false, "-"), ("F", false, "-"), ("E", true, "-"), ("E", false, "k1"), ("F", true, "k1")] {
-            push(&mut out, api, &sh, l.4, l.5, false, par, "mt", cancel.into(), &mut k, &mut rng);
+            push(&mut out, api, &sh, l.4, l.5, 0, par, "mt", cancel.into(), &mut k, &mut rng);
+        }
+        // partial chains whose last level is still multi-fragment, cancelled at every report
+        if is_bc(l.0) {
+            for m in [2u32, 3] {
+                push(&mut out, "E", &sh, l.4, l.5, m, true, "mt", "sweep".into(), &mut k, &mut rng);
+                push(&mut out, "E", &sh, l.4, l.5, m, false, "mt", "sweep".into(), &mut k, &mut rng);
+            }
         }
     }
     let structured = std::mem::take(&mut out);
@@ -551,7 +577,8 @@ pub fn gen(seed: u64, thorough: bool) -> Vec<String> {
             continue;
         }
         let api = if rng.chance(1, 2) { "E" } else { "F" };
-        let mips = api == "E" && rng.chance(1, 3);
+        let mips = if api == "E" && rng.chance(1, 3) { *rng.pick(&[1u32, 1, 2, 3]) } else { 0 };
+        let mips = if mips >= 2 && w.max(h) < (1 << mips) { 1 } else { mips };
         let rep = if rng.chance(1, 8) { "st" } else { "mt" };
         let cancel = match rng.below(4) {
             0 => "-".to_string(),
@@ -559,6 +586,9 @@ pub fn gen(seed: u64, thorough: bool) -> Vec<String> {
             _ => format!("k{}", rng.below(14)),
         };
         push(&mut out, api, &sh, w as u32, h as u32, mips, true, rep, cancel, &mut k, &mut rng);
+        if mips >= 2 && rng.chance(1, 2) {
+            push(&mut out, api, &sh, w as u32, h as u32, mips, true, "mt", "sweep".into(), &mut k, &mut rng);
+        }
     }
     // interleave the two lists so that check.py's chunks balance
     let random = out;
